@@ -271,11 +271,11 @@ theorem evalPr_cases (c : Cfg) (h : Host) (s : Sys) (id : Nat) (orc : List Bool)
     ((evalPr c h s id orc sel).declined = false ∧ (evalPr c h s id orc sel).stage = .early ∧
       (evalPr c h s id orc sel).plan = gatePlan s) ∨
     (∃ p st src dst, AtClone c h s id p st src dst ∧ (p.status == "DECLINED") = true ∧
-      (evalPr c h s id orc sel).declined = true ∧ (evalPr c h s id orc sel).pr = ⟨p.id, p.src, dst⟩ ∧
+      (evalPr c h s id orc sel).declined = true ∧ (evalPr c h s id orc sel).pr = ⟨p.id, p.src, dst, opt st "no_octopus"⟩ ∧
       (evalPr c h s id orc sel).plan =
-        planDeclined s ⟨p.id, p.src, dst⟩ (evalPr c h s id orc sel).childDeclined) ∨
+        planDeclined s ⟨p.id, p.src, dst, opt st "no_octopus"⟩ (evalPr c h s id orc sel).childDeclined) ∨
     (∃ p st src dst, AtClone c h s id p st src dst ∧ (p.status == "DECLINED") = false ∧
-      evalPr c h s id orc sel = afterClone c h s p ⟨p.id, p.src, dst⟩ src st (greetingOf c h s p) orc sel) := by
+      evalPr c h s id orc sel = afterClone c h s p ⟨p.id, p.src, dst, opt st "no_octopus"⟩ src st (greetingOf c h s p) orc sel) := by
   unfold evalPr
   split
   · exact Or.inl ⟨rfl, rfl, rfl⟩
